@@ -130,6 +130,12 @@ Step ==
             /\ LET want == IF e.dir \in DOMAIN hist THEN hist[e.dir][e.c][e.t] ELSE <<>> IN
                Report(When(e.frames # Frames(want), "C06_behaviour") \cup When(e.frames # Frames(want), "C05_body"))
             /\ UNCHANGED <<cfg, rep, exp, expState, expExt, expDrop, closed, dirsSeen, hist>>
+       [] e.ev = "FilePause" ->
+            \* right after an accepted PAUSE: the files of the session hold every record published to them so far, whole
+            \* (the pause flushes; C07: what was accepted before a flush call returns is in the file when it returns)
+            /\ LET want == IF rep.active /\ e.dir = rep.dir THEN exp[e.c][e.t] ELSE <<>> IN
+               Report(When(e.frames # Frames(want) \/ e.trailing # 0, "C07_pause_flushes"))
+            /\ UNCHANGED <<cfg, rep, exp, expState, expExt, expDrop, closed, dirsSeen, hist>>
        [] e.ev = "Label" ->
             /\ Report(When(e.ok /\ ~rep.active, "C20_label_inactive"))
             /\ expState' = IF e.ok /\ rep.active THEN Append(expState, e.label) ELSE expState
